@@ -100,15 +100,22 @@ class SoupLines(Stream):
         self.fp = import_freephil()
         self.oracles = {}
 
+    def corpus(self):
+        # DOS line ends: a carriage return is a blank, and backslash + CR LF inside quotes is no continuation
+        return ['a = "x\\\r\ny"\r\nn = 5\r\nm = oops\r\n', 'a = 1 \\\r\n 2\r\nb = 3\r\n', "a = 'p\r\nq' r\r\n{\r\n"]
+
     def cases(self, rng, tier):
         for i in range(2000 if tier == "quick" else 40000):
             r = i % 3
             if r == 0:
-                yield pc.gen_soup(rng)
+                t = pc.gen_soup(rng)
             elif r == 1:
-                yield pc.mutate(rng, pc.gen_doc(rng, good=True))
+                t = pc.mutate(rng, pc.gen_doc(rng, good=True))
             else:
-                yield pc.gen_doc(rng, good=(i % 2 == 0))
+                t = pc.gen_doc(rng, good=(i % 2 == 0))
+            if i % 7 == 3:
+                t = t.replace("\n", "\r\n")           # the same text with DOS line ends
+            yield t
 
     def impl(self, case):
         o, orc = pc.impl_parse(self.fp, case)
@@ -178,9 +185,76 @@ class ChoiceErrorLines(FetchDirect):
         return "notachoice" if isinstance(F, list) and F[:3] == ["err", "Sorry", "NotAChoice"] else "other"
 
 
+from c03 import tok_obs, model_tok_obs  # noqa: E402
+
+
+class ValidateLines(Stream):
+    """definition.try_tokenize / validate on text typed into an entry field (GUI): the value may start on any line of the
+    text; every word, the missing-quote error and the value error cite their line within that text.  Words and
+    tokenizer errors are compared with the tokenizer model in value-literal mode; the value error with an oracle."""
+    name = "validate_lines"
+    cluster = "Tok"
+
+    def __init__(self, ctx):
+        super().__init__(ctx)
+        self.fp = import_freephil()
+        self.d_int = self.fp.parse("x = 1\n  .type = int\n").objects[0]
+
+    def corpus(self):
+        return ["\n\n12 apples", "\n \nfirst \\\n second", "\n'open", "  \n\t\n 5", "", "\n\n"]
+
+    def cases(self, rng, tier):
+        words = ["5", "12 apples", "oops", "'q r'", "\"a\nb\"", "x \\\n y", "'open", "\"\"\"t\n", "1+", "None", "#c", ";"]
+        for _ in range(1500 if tier == "quick" else 20000):
+            lead = "".join(rng.choice(["\n", "\n", " ", "\t", " \n", "\r\n"]) for _ in range(rng.randint(0, 5)))
+            body = " ".join(rng.choice(words) for _ in range(rng.randint(0, 3)))
+            yield lead + body + rng.choice(["", "\n", " \n\n"])
+
+    def impl(self, case):
+        d = self.d_int
+
+        def toks():
+            p = d.try_tokenize(input_string=case, source_info=None)
+            if p.error_message is not None:
+                raise RuntimeError(p.error_message)
+            return p.tokenized.words
+        t = tok_obs(toks)
+        v = None
+        if t[0] == "ok":
+            p = d.validate(input_string=case)
+            if p.error_message is not None:
+                v = str(pc.err_line(p.error_message)) if hasattr(pc, "err_line") else None
+        return [t, v]
+
+    def requests(self, case, o):
+        return [("tokenize", ["v", case])]
+
+    def model(self, case, replies, o):
+        m = model_tok_obs(replies[0])
+        if m[0] == "ok" and m[1] == []:
+            m = ["ok", [["None", "n", "0"]]]          # try_tokenize supplies the word None for an empty value
+        return [m, o[1]]
+
+    def prop(self, case, o):
+        t, v = o
+        if t[0] == "ok" and t[1] and t[1][0][2] != "0":
+            lead = len(case) - len(case.lstrip())
+            want = 1 + case[:lead].count("\n")
+            if str(t[1][0][2]) != str(want):
+                return "the first word stands on line %d of the text but reports line %s" % (want, t[1][0][2])
+        if t[0] == "ok" and v is not None and t[1]:
+            first = t[1][0][2]
+            if str(v) != str(first):
+                return "the value error cites line %s, the value starts on line %s of the text" % (v, first)
+        return None
+
+    def tag(self, case, o):
+        return o[0][0]
+
+
 SPEC = {
     "clusters": ["Parse", "Tok", "Choice"],
-    "streams": [Lines, SoupLines, ScanForStart, ChoiceErrorLines],
+    "streams": [Lines, SoupLines, ScanForStart, ChoiceErrorLines, ValidateLines],
     "rule": "renderings of random abstract trees by the layout sampler, which records the line of every emitted name and word "
             "(multi-line quoted words, continuations, ';', comments, off regions), plus malformed variants with a known faulty token and line; "
             "plus token soup / mutated documents where implementation and model must report identical lines; distinct = distinct text",
